@@ -746,6 +746,8 @@ open Sop.StoreRepoCommit
 one (both are destructive on a name in use, see the assumptions of `create_race`). -/
 def Calm (N : List String) : Op → Prop
   | .new n _ => n ∈ N
+  | .newLog n _ _ => n ∈ N
+  | .newAdd n _ _ => n ∈ N
   | .otherNew n _ => n ∉ N
   | .otherRemove n => n ∉ N
   | _ => True
@@ -811,11 +813,11 @@ theorem cinv_env {N : List String} {s : StoreRepoCommit.State} (h : CInv N s) (d
 
 /-- a step of `T` that changes neither the catalogue nor the set of created names, the phase or the log state -/
 theorem cinv_congr {N : List String} {s s' : StoreRepoCommit.State} (h : CInv N s) (hd : s'.disk = s.disk)
-    (hc : created s' = created s) (hp : s'.phase = s.phase) (hl : s'.logged = s.logged) : CInv N s' := by
+    (hc : created s' = created s) (hp : s'.phase = s.phase) (hl : s.logged = true → s'.logged = true) : CInv N s' := by
   refine ⟨?_, ?_, ?_, ?_, ?_, ?_⟩
   · rw [hc]; exact h.sub
   · rw [hc, hp]; exact h.idle
-  · rw [hc, hp, hl, hd]; exact h.live
+  · rw [hc, hp, hd]; exact fun hp' => ⟨fun hne => hl ((h.live hp').1 hne), (h.live hp').2⟩
   · rw [hc, hp, hd]; exact h.retry
   · rw [hc, hp, hd]; exact h.failed
   · rw [hc, hp, hd]; exact h.committed
@@ -830,8 +832,9 @@ theorem created_append_created (os : List Opened) (n : String) (r : Nat) :
     createdNames (os ++ [{ name := n, root := r, created := true, adds := [] }]) = createdNames os ++ [n] := by
   simp [createdNames, List.filter_append]
 
-theorem cinv_step {N : List String} {s : StoreRepoCommit.State} (h : CInv N s) (op : StoreRepoCommit.Op) (hc : Calm N op) :
-    CInv N (step false s op).1 := by
+theorem cinv_step {N : List String} {s : StoreRepoCommit.State} (h : CInv N s) (op : StoreRepoCommit.Op) (hc : Calm N op)
+    (hpend : s.pendingLog.isSome = true → s.logged = true) :
+    CInv N (step {} s op).1 := by
   cases op with
   | begin =>
     simp only [step]; split
@@ -845,12 +848,12 @@ theorem cinv_step {N : List String} {s : StoreRepoCommit.State} (h : CInv N s) (
     simp only [step]; split
     · exact h
     · rename_i hp
-      have hp : s.phase = .live := by simpa using hp
+      have hp : s.phase = .live := Classical.byContradiction fun hne => hp (Or.inl hne)
       split
       · split
         · split
           · exact h
-          · exact cinv_congr h rfl (Sop.C12.createdNames_append_opened _ _ rfl) rfl rfl
+          · exact cinv_congr h rfl (Sop.C12.createdNames_append_opened _ _ rfl) rfl id
         · exact cinv_final h.sub (Or.inl (h.live hp).1)
       · have hcr := created_append_created s.opened n s.next
         refine ⟨?_, ?_, ?_, ?_, ?_, ?_⟩
@@ -872,15 +875,15 @@ theorem cinv_step {N : List String} {s : StoreRepoCommit.State} (h : CInv N s) (
     simp only [step]; split
     · exact h
     · rename_i hp
-      have hp : s.phase = .live := by simpa using hp
+      have hp : s.phase = .live := Classical.byContradiction fun hne => hp (Or.inl hne)
       split
       · exact h
       · split
-        · exact cinv_congr h rfl (Sop.C12.createdNames_append_opened _ _ rfl) rfl rfl
+        · exact cinv_congr h rfl (Sop.C12.createdNames_append_opened _ _ rfl) rfl id
         · exact cinv_final h.sub (Or.inl (h.live hp).1)
   | add n k v =>
     simp only [step]; split
-    · exact cinv_congr h rfl (Sop.C12.createdNames_addLast _ _ _) rfl rfl
+    · exact cinv_congr h rfl (Sop.C12.createdNames_addLast _ _ _) rfl id
     · exact h
   | conflict =>
     simp only [step]; split
@@ -902,19 +905,84 @@ theorem cinv_step {N : List String} {s : StoreRepoCommit.State} (h : CInv N s) (
           refine ⟨h.sub, fun hp' => (by cases hp'), fun hp' => (by cases hp'), fun hp' => (by cases hp'), fun hp' => (by cases hp'), fun _ n hn => ?_⟩
           show has (applyCounts (s.opened.foldl applyItems s.disk) s.opened) n = true
           rw [has_of_names hnames]
-          rcases hph with hl | hrt
+          rcases hph.1 with hl | hrt
           · exact (h.live hl).2 n hn
           · have : ¬ ((created s).any fun n => !has s.disk n) = true := fun e => hr ⟨hrt, e⟩
             simp only [List.any_eq_true, Bool.not_eq_true', not_exists, not_and, Bool.not_eq_false] at this
             exact this n hn
         · refine cinv_final (s := { s with logged := s.logged || relogged }) h.sub ?_
-          rcases hph with hl | hrt
+          rcases hph.1 with hl | hrt
           · exact Or.inl fun hne => by simp [(h.live hl).1 hne]
           · exact Or.inr (h.retry hrt)
     · exact h
   | rollback =>
     simp only [step]; split
-    · rename_i hp; exact cinv_final h.sub (Or.inl (h.live hp).1)
+    · rename_i hp; exact cinv_final h.sub (Or.inl (h.live hp.1).1)
+    · exact h
+  | newLog n o f =>
+    simp only [step]; split
+    · exact h
+    · rename_i hp
+      have hp : s.phase = .live := Classical.byContradiction fun hne => hp hne
+      simp only [Bool.false_eq_true, if_false]
+      split
+      · exact h
+      · cases f with
+        | none => exact cinv_congr h rfl rfl rfl (fun _ => rfl)
+        | before => exact cinv_final (s := { s with logged := true }) h.sub (Or.inl fun _ => rfl)
+        | after => exact cinv_final (s := { s with logged := true, tlog := s.tlog ++ [n] }) h.sub (Or.inl fun _ => rfl)
+  | newAdd n o f =>
+    simp only [step]; split
+    · exact h
+    · rename_i hp
+      have hp : s.phase = .live := Classical.byContradiction fun hne => hp hne
+      simp only [Bool.false_eq_true, if_false]
+      split
+      · rename_i n' o' hpl
+        split
+        · exact h
+        · rename_i hg
+          have hnot : has s.disk n = false := by
+            cases hh : has s.disk n with
+            | false => rfl
+            | true => exact absurd (Or.inr hh) hg
+          have hlog : s.logged = true := hpend (by rw [hpl]; rfl)
+          cases f with
+          | none =>
+            have hcr := created_append_created s.opened n s.next
+            refine ⟨?_, ?_, ?_, ?_, ?_, ?_⟩
+            · intro m hm; simp only [created, register] at hm; rw [hcr] at hm
+              rcases List.mem_append.mp hm with hm | hm
+              · exact h.sub m hm
+              · rw [List.mem_singleton.mp hm]; exact hc
+            · intro hp'; simp only [register] at hp'; rw [hp] at hp'; cases hp'
+            · intro _
+              refine ⟨fun _ => hlog, ?_⟩
+              intro m hm; simp only [created, register] at hm; rw [hcr] at hm
+              rcases List.mem_append.mp hm with hm | hm
+              · exact has_append_mono ((h.live hp).2 m hm)
+              · rw [List.mem_singleton.mp hm]; exact has_append_self s.disk (newStore s n o)
+            · intro hp'; simp only [register] at hp'; rw [hp] at hp'; cases hp'
+            · intro hp'; simp only [register] at hp'; rw [hp] at hp'; cases hp'
+            · intro hp'; simp only [register] at hp'; rw [hp] at hp'; cases hp'
+          | before =>
+            have : addFailed s n s.next = finalRollback s := by
+              simp only [addFailed, Sop.C12.lookup_none hnot]
+            rw [this]; exact cinv_final h.sub (Or.inl (h.live hp).1)
+          | after =>
+            unfold addFailed
+            exact cinv_final (s := { s with disk := _, next := s.next + 1, everAdded := s.everAdded ++ [n] }) h.sub (Or.inl (h.live hp).1)
+      · exact h
+  | crash =>
+    simp only [step]; split
+    · exact ⟨fun _ hn => (by cases hn), fun hp' => (by cases hp'), fun hp' => (by cases hp'), fun hp' => (by cases hp'),
+        fun hp' => (by cases hp'), fun hp' => (by cases hp')⟩
+    · exact h
+  | recover =>
+    simp only [step]; split
+    · rename_i hp
+      exact ⟨h.sub, fun hp' => (by cases hp'), fun hp' => (by cases hp'), fun hp' => (by cases hp'),
+        fun hp' => (by cases hp'), fun hp' => (by cases hp')⟩
     · exact h
   | otherAdd n k v =>
     simp only [step]
@@ -930,16 +998,336 @@ theorem cinv_step {N : List String} {s : StoreRepoCommit.State} (h : CInv N s) (
     simp only [step]
     exact cinv_env h _ s.next fun n hn => has_erase_other (fun e => hc (by rw [e]; exact h.sub n hn))
 
-theorem cinv_run {N : List String} (ops : List StoreRepoCommit.Op) : ∀ {s : StoreRepoCommit.State}, CInv N s → (∀ op ∈ ops, Calm N op) →
-    CInv N (StoreRepoCommit.run false s ops) := by
+/-! ### what is durable: the `createStore` record precedes the store -/
+
+/-- Facts about the names `T`'s `Add` was ever performed for (`everAdded`, a ghost field). `durable` is the point of
+writing the `createStore` record BEFORE `StoreRepository.Add`: while `T` runs, a store it added that is on disk has
+its record in the transaction log, so that a recovery which knows nothing but the log can remove it. -/
+structure DInv (N : List String) (s : StoreRepoCommit.State) : Prop where
+  esub : ∀ n ∈ s.everAdded, n ∈ N
+  idle : s.phase = .idle → s.everAdded = []
+  noPA : s.pendingAdd = none
+  tracked : (s.phase = .live ∨ s.phase = .retry) → ∀ n ∈ s.everAdded, n ∈ created s ∨ has s.disk n = false
+  durable : (s.phase = .live ∨ s.phase = .retry ∨ s.phase = .crashed) → ∀ n ∈ s.everAdded, has s.disk n = true → n ∈ s.tlog
+  pend : ∀ n o, s.pendingLog = some (n, o) → n ∈ s.tlog ∧ s.logged = true ∧ s.phase = .live
+  gone : (s.phase = .failed ∨ s.phase = .recovered) → ∀ n ∈ s.everAdded, has s.disk n = false
+
+theorem has_erase_false {d : List Store} {m n : String} (h : has d n = false) : has (erase d m) n = false := by
+  rw [Sop.C12.has_false_iff] at h ⊢
+  intro st hst; exact h st (Sop.C12.mem_erase.mp hst).1
+
+theorem has_erase_self (d : List Store) (n : String) : has (erase d n) n = false := Sop.C12.has_erase d n
+
+theorem has_eraseAll_false {d : List Store} {ns : List String} {n : String} (h : has d n = false) : has (eraseAll d ns) n = false := by
+  rw [Sop.C12.has_false_iff] at h ⊢
+  intro st hst; exact h st (Sop.C12.mem_eraseAll.mp hst).1
+
+theorem has_removeCreated_false {s : StoreRepoCommit.State} {n : String} (h : has s.disk n = false) : has (removeCreated s) n = false := by
+  unfold removeCreated; split
+  · exact has_eraseAll_false h
+  · exact h
+
+theorem has_append_false {d : List Store} {st : Store} {n : String} (h : has d n = false) (hne : st.name ≠ n) : has (d ++ [st]) n = false := by
+  rw [has_append_other hne]; exact h
+
+/-- the live rollback of a state in which every ever-added name is tracked or gone -/
+theorem dinv_final {N : List String} {s : StoreRepoCommit.State} (hes : ∀ n ∈ s.everAdded, n ∈ N)
+    (ht : ∀ n ∈ s.everAdded, n ∈ created s ∨ has s.disk n = false)
+    (h : (created s ≠ [] → s.logged = true) ∨ ∀ n ∈ created s, has s.disk n = false) : DInv N (finalRollback s) := by
+  refine ⟨hes, fun hp => (by cases hp), rfl, fun hp => (by rcases hp with hp | hp <;> cases hp),
+    fun hp => (by rcases hp with hp | hp | hp <;> cases hp), fun _ _ hp => (by cases hp), fun _ n hn => ?_⟩
+  show has (removeCreated s) n = false
+  rcases ht n hn with hcr | hf
+  · exact removeCreated_gone h n hcr
+  · exact has_removeCreated_false hf
+
+/-- a step that changes neither disk, log, ever-added names nor the phase, keeps the created names and the pending
+record -/
+theorem dinv_congr {N : List String} {s s' : StoreRepoCommit.State} (h : DInv N s) (hd : s'.disk = s.disk)
+    (hc : created s' = created s) (hp : s'.phase = s.phase) (hl : s'.logged = s.logged) (ht : s'.tlog = s.tlog)
+    (he : s'.everAdded = s.everAdded) (hpl : s'.pendingLog = s.pendingLog) (hpa : s'.pendingAdd = s.pendingAdd) : DInv N s' := by
+  refine ⟨?_, ?_, ?_, ?_, ?_, ?_, ?_⟩
+  · rw [he]; exact h.esub
+  · rw [he, hp]; exact h.idle
+  · rw [hpa]; exact h.noPA
+  · rw [he, hp, hc, hd]; exact h.tracked
+  · rw [he, hp, hd, ht]; exact h.durable
+  · rw [hpl, ht, hl, hp]; exact h.pend
+  · rw [he, hp, hd]; exact h.gone
+
+/-- an environment step that leaves `has · n` alone for the names of `N` -/
+theorem dinv_env {N : List String} {s : StoreRepoCommit.State} (h : DInv N s) (d' : List Store) (nx : Nat)
+    (hd : ∀ n ∈ N, has d' n = has s.disk n) : DInv N { s with disk := d', next := nx } := by
+  refine ⟨h.esub, h.idle, h.noPA, fun hp n hn => ?_, fun hp n hn hh => ?_, h.pend, fun hp n hn => ?_⟩
+  · rcases h.tracked hp n hn with hcr | hf
+    · exact Or.inl hcr
+    · exact Or.inr ((hd n (h.esub n hn)).trans hf)
+  · exact h.durable hp n hn ((hd n (h.esub n hn)).symm.trans hh)
+  · exact (hd n (h.esub n hn)).trans (h.gone hp n hn)
+
+theorem dinv_step {N : List String} {s : StoreRepoCommit.State} (hc' : CInv N s) (h : DInv N s) (op : StoreRepoCommit.Op) (hc : Calm N op) :
+    DInv N (step {} s op).1 := by
+  have hlive : s.phase = .live → ∀ n ∈ s.everAdded, n ∈ created s ∨ has s.disk n = false := fun hp => h.tracked (Or.inl hp)
+  cases op with
+  | begin =>
+    simp only [step]; split
+    · rename_i hp
+      have he := h.idle hp
+      refine ⟨h.esub, fun hp' => (by cases hp'), h.noPA, fun _ n hn => ?_, fun _ n hn => ?_, fun n o hpl => ?_, fun hp' => (by rcases hp' with hp' | hp' <;> cases hp')⟩
+      · simp only [he] at hn; cases hn
+      · simp only [he] at hn; cases hn
+      · have := (h.pend n o hpl).2.2; rw [hp] at this; cases this
+    · exact h
+  | new n o =>
+    simp only [step]; split
+    · exact h
+    · rename_i hp
+      have hpl : s.phase = .live := Classical.byContradiction fun hne => hp (Or.inl hne)
+      have hnp : s.pendingLog = none := by
+        cases hx : s.pendingLog with
+        | none => rfl
+        | some x => exact absurd (Or.inr (Or.inl (by rw [hx]; rfl))) hp
+      split
+      · split
+        · split
+          · exact h
+          · exact dinv_congr h rfl (Sop.C12.createdNames_append_opened _ _ rfl) rfl rfl rfl rfl rfl rfl
+        · exact dinv_final h.esub (hlive hpl) (Or.inl (hc'.live hpl).1)
+      · rename_i hlk
+        have hnot : has s.disk n = false := by
+          cases hh : has s.disk n with
+          | false => rfl
+          | true =>
+            obtain ⟨st, hst, hn⟩ := Sop.C12.has_iff.mp hh
+            have : lookup s.disk n ≠ none := by
+              simp only [lookup, ne_eq, List.find?_eq_none, decide_eq_true_eq]
+              exact fun hx => hx st hst hn
+            exact absurd hlk this
+        have hcr := created_append_created s.opened n s.next
+        refine ⟨?_, ?_, h.noPA, ?_, ?_, ?_, ?_⟩
+        · intro m hm
+          rcases List.mem_append.mp hm with hm | hm
+          · exact h.esub m hm
+          · rw [List.mem_singleton.mp hm]; exact hc
+        · intro hp'; rw [hpl] at hp'; cases hp'
+        · intro _ m hm
+          simp only [created]; rw [hcr]
+          rcases List.mem_append.mp hm with hm | hm
+          · rcases hlive hpl m hm with hcm | hf
+            · exact Or.inl (List.mem_append.mpr (Or.inl hcm))
+            · by_cases hmn : m = n
+              · exact Or.inl (List.mem_append.mpr (Or.inr (by rw [hmn]; exact List.mem_singleton.mpr rfl)))
+              · exact Or.inr (has_append_false hf (fun e => hmn e.symm))
+          · exact Or.inl (List.mem_append.mpr (Or.inr hm))
+        · intro _ m hm hh
+          by_cases hmn : m = n
+          · exact List.mem_append.mpr (Or.inr (by rw [hmn]; exact List.mem_singleton.mpr rfl))
+          · rcases List.mem_append.mp hm with hm | hm
+            · rw [has_append_other (fun e => hmn e.symm)] at hh
+              exact List.mem_append.mpr (Or.inl (h.durable (Or.inl hpl) m hm hh))
+            · exact absurd (List.mem_singleton.mp hm) hmn
+        · intro m o' hx; rw [hnp] at hx; cases hx
+        · intro hp'; rw [hpl] at hp'; rcases hp' with hp' | hp' <;> cases hp'
+  | open_ n =>
+    simp only [step]; split
+    · exact h
+    · rename_i hp
+      have hpl : s.phase = .live := Classical.byContradiction fun hne => hp (Or.inl hne)
+      split
+      · exact h
+      · split
+        · exact dinv_congr h rfl (Sop.C12.createdNames_append_opened _ _ rfl) rfl rfl rfl rfl rfl rfl
+        · exact dinv_final h.esub (hlive hpl) (Or.inl (hc'.live hpl).1)
+  | add n k v =>
+    simp only [step]; split
+    · exact dinv_congr h rfl (Sop.C12.createdNames_addLast _ _ _) rfl rfl rfl rfl rfl rfl
+    · exact h
+  | conflict =>
+    simp only [step]; split
+    · rename_i hg
+      have hnp : s.pendingLog = none := by
+        cases hx : s.pendingLog with
+        | none => rfl
+        | some x => have := hg.2.1; rw [hx] at this; cases this
+      have hgone : ∀ n ∈ s.everAdded, has (removeCreated { s with logged := true }) n = false := by
+        intro n hn
+        rcases h.tracked hg.1 n hn with hcr | hf
+        · exact removeCreated_gone (s := { s with logged := true }) (Or.inl fun _ => rfl) n hcr
+        · exact has_removeCreated_false (s := { s with logged := true }) hf
+      refine ⟨h.esub, fun hp' => (by cases hp'), h.noPA, fun _ n hn => Or.inr (hgone n hn), fun _ n hn hh => ?_, fun n o hx => ?_,
+        fun hp' => (by rcases hp' with hp' | hp' <;> cases hp')⟩
+      · have := hgone n hn
+        simp only [partialRollback, Bool.false_eq_true, if_false] at hh
+        rw [this] at hh; cases hh
+      · simp only [partialRollback] at hx; rw [hnp] at hx; cases hx
+    · exact h
+  | finish ok relogged =>
+    simp only [step]; split
+    · rename_i hph
+      have hnp : s.pendingLog = none := by
+        cases hx : s.pendingLog with
+        | none => rfl
+        | some x => have := hph.2.1; rw [hx] at this; cases this
+      split
+      · rename_i hr
+        exact dinv_final h.esub (h.tracked hph.1) (Or.inr (hc'.retry hr.1))
+      · split
+        · refine ⟨h.esub, fun hp' => (by cases hp'), h.noPA, fun hp' => (by rcases hp' with hp' | hp' <;> cases hp'),
+            fun hp' => (by rcases hp' with hp' | hp' | hp' <;> cases hp'), fun n o hx => ?_, fun hp' => (by rcases hp' with hp' | hp' <;> cases hp')⟩
+          simp only [commitOk] at hx; rw [hnp] at hx; cases hx
+        · refine dinv_final (s := { s with logged := s.logged || relogged }) h.esub (h.tracked hph.1) ?_
+          rcases hph.1 with hl | hrt
+          · exact Or.inl fun hne => by simp [(hc'.live hl).1 hne]
+          · exact Or.inr (hc'.retry hrt)
+    · exact h
+  | rollback =>
+    simp only [step]; split
+    · rename_i hp; exact dinv_final h.esub (hlive hp.1) (Or.inl (hc'.live hp.1).1)
+    · exact h
+  | newLog n o f =>
+    simp only [step]; split
+    · exact h
+    · rename_i hp
+      have hpl : s.phase = .live := Classical.byContradiction fun hne => hp hne
+      simp only [Bool.false_eq_true, if_false]
+      split
+      · exact h
+      · cases f with
+        | none =>
+          refine ⟨h.esub, fun hp' => (by rw [hpl] at hp'; cases hp'), h.noPA, h.tracked, fun hp' m hm hh => ?_, fun m o' hx => ?_, ?_⟩
+          · exact List.mem_append.mpr (Or.inl (h.durable hp' m hm hh))
+          · simp only [Option.some.injEq, Prod.mk.injEq] at hx
+            exact ⟨List.mem_append.mpr (Or.inr (by rw [← hx.1]; exact List.mem_singleton.mpr rfl)), rfl, hpl⟩
+          · intro hp'; rw [hpl] at hp'; rcases hp' with hp' | hp' <;> cases hp'
+        | before => exact dinv_final (s := { s with logged := true }) h.esub (hlive hpl) (Or.inl fun _ => rfl)
+        | after => exact dinv_final (s := { s with logged := true, tlog := s.tlog ++ [n] }) h.esub (hlive hpl) (Or.inl fun _ => rfl)
+  | newAdd n o f =>
+    simp only [step]; split
+    · exact h
+    · rename_i hp
+      have hpl : s.phase = .live := Classical.byContradiction fun hne => hp hne
+      simp only [Bool.false_eq_true, if_false]
+      split
+      · rename_i n' o' hpnd
+        split
+        · exact h
+        · rename_i hg
+          have hnn : n' = n := Classical.byContradiction fun hne => hg (Or.inl hne)
+          have hnot : has s.disk n = false := by
+            cases hh : has s.disk n with
+            | false => rfl
+            | true => exact absurd (Or.inr hh) hg
+          have hrec : n ∈ s.tlog := by rw [← hnn]; exact (h.pend n' o' hpnd).1
+          have hes : ∀ m ∈ s.everAdded ++ [n], m ∈ N := by
+            intro m hm
+            rcases List.mem_append.mp hm with hm | hm
+            · exact h.esub m hm
+            · rw [List.mem_singleton.mp hm]; exact hc
+          cases f with
+          | none =>
+            have hcr := created_append_created s.opened n s.next
+            refine ⟨hes, fun hp' => (by simp only [register] at hp'; rw [hpl] at hp'; cases hp'), h.noPA, ?_, ?_, ?_, ?_⟩
+            · intro _ m hm
+              simp only [created, register]; rw [hcr]
+              rcases List.mem_append.mp hm with hm | hm
+              · rcases hlive hpl m hm with hcm | hf
+                · exact Or.inl (List.mem_append.mpr (Or.inl hcm))
+                · by_cases hmn : m = n
+                  · exact Or.inl (List.mem_append.mpr (Or.inr (by rw [hmn]; exact List.mem_singleton.mpr rfl)))
+                  · exact Or.inr (has_append_false hf (fun e => hmn e.symm))
+              · exact Or.inl (List.mem_append.mpr (Or.inr hm))
+            · intro _ m hm hh
+              simp only [register] at hh ⊢
+              by_cases hmn : m = n
+              · rw [hmn]; exact hrec
+              · rcases List.mem_append.mp hm with hm | hm
+                · rw [has_append_other (fun e => hmn e.symm)] at hh
+                  exact h.durable (Or.inl hpl) m hm hh
+                · exact absurd (List.mem_singleton.mp hm) hmn
+            · intro m o'' hx; simp only [register] at hx; cases hx
+            · intro hp'; simp only [register] at hp'; rw [hpl] at hp'; rcases hp' with hp' | hp' <;> cases hp'
+          | before =>
+            have : addFailed s n s.next = finalRollback s := by
+              simp only [addFailed, Sop.C12.lookup_none hnot]
+            rw [this]; exact dinv_final h.esub (hlive hpl) (Or.inl (hc'.live hpl).1)
+          | after =>
+            have hlk : lookup (s.disk ++ [newStore s n o]) n = some (newStore s n o) :=
+              Sop.C12.lookup_append_new (st := newStore s n o) hnot
+            have : addFailed { s with disk := s.disk ++ [newStore s n o], next := s.next + 1, everAdded := s.everAdded ++ [n] } n s.next
+                = finalRollback { s with disk := erase (s.disk ++ [newStore s n o]) n, next := s.next + 1, everAdded := s.everAdded ++ [n] } := by
+              simp only [addFailed, hlk]
+              simp [newStore]
+            rw [this]
+            refine dinv_final (s := { s with disk := erase (s.disk ++ [newStore s n o]) n, next := s.next + 1, everAdded := s.everAdded ++ [n] })
+              hes ?_ (Or.inl (hc'.live hpl).1)
+            intro m hm
+            rcases List.mem_append.mp hm with hm | hm
+            · rcases hlive hpl m hm with hcm | hf
+              · exact Or.inl hcm
+              · by_cases hmn : m = n
+                · rw [hmn]; exact Or.inr (has_erase_self _ n)
+                · exact Or.inr (has_erase_false (has_append_false hf (fun e => hmn e.symm)))
+            · rw [List.mem_singleton.mp hm]; exact Or.inr (has_erase_self _ n)
+      · exact h
+  | crash =>
+    simp only [step]; split
+    · rename_i hp
+      refine ⟨h.esub, fun hp' => (by cases hp'), rfl, fun hp' => (by rcases hp' with hp' | hp' <;> cases hp'), fun _ n hn hh => ?_,
+        fun _ _ hx => (by cases hx), fun hp' => (by rcases hp' with hp' | hp' <;> cases hp')⟩
+      exact h.durable (by rcases hp with hp | hp; exact Or.inl hp; exact Or.inr (Or.inl hp)) n hn hh
+    · exact h
+  | recover =>
+    simp only [step]; split
+    · rename_i hp
+      refine ⟨h.esub, fun hp' => (by cases hp'), h.noPA, fun hp' => (by rcases hp' with hp' | hp' <;> cases hp'),
+        fun hp' => (by rcases hp' with hp' | hp' | hp' <;> cases hp'), fun n o hx => ?_, fun _ n hn => ?_⟩
+      · have := (h.pend n o hx).2.2; rw [hp] at this; cases this
+      · show has (eraseAll s.disk s.tlog) n = false
+        cases hh : has s.disk n with
+        | false => exact has_eraseAll_false hh
+        | true => exact has_eraseAll_mem (h.durable (Or.inr (Or.inr hp)) n hn hh)
+    · exact h
+  | otherAdd n k v =>
+    simp only [step]
+    refine dinv_env h _ s.next fun m _ => has_of_names ?_ m
+    simp only [names, List.map_map]
+    apply List.map_congr_left
+    intro st _; simp only [Function.comp]; split <;> rfl
+  | otherNew m o =>
+    simp only [step]; split
+    · exact h
+    · exact dinv_env h _ _ fun n hn => has_append_other (fun e => hc (by rw [show m = n from e]; exact hn))
+  | otherRemove m =>
+    simp only [step]
+    exact dinv_env h _ s.next fun n hn => has_erase_other (fun e => hc (by rw [e]; exact hn))
+
+structure Inv2 (N : List String) (s : StoreRepoCommit.State) : Prop where
+  c : CInv N s
+  d : DInv N s
+
+theorem inv2_step {N : List String} {s : StoreRepoCommit.State} (h : Inv2 N s) (op : StoreRepoCommit.Op) (hc : Calm N op) :
+    Inv2 N (step {} s op).1 :=
+  ⟨cinv_step h.c op hc (fun hs => by
+      cases hpl : s.pendingLog with
+      | none => rw [hpl] at hs; cases hs
+      | some x => exact (h.d.pend x.1 x.2 hpl).2.1),
+   dinv_step h.c h.d op hc⟩
+
+theorem inv2_run {N : List String} (ops : List StoreRepoCommit.Op) : ∀ {s : StoreRepoCommit.State}, Inv2 N s → (∀ op ∈ ops, Calm N op) →
+    Inv2 N (StoreRepoCommit.run {} s ops) := by
   induction ops with
   | nil => intro s h _; exact h
   | cons op ops ih =>
     intro s h hc
-    exact ih (cinv_step h op (hc op (List.mem_cons_self ..))) (fun o ho => hc o (List.mem_cons_of_mem _ ho))
+    exact ih (inv2_step h op (hc op (List.mem_cons_self ..))) (fun o ho => hc o (List.mem_cons_of_mem _ ho))
 
 theorem cinv_start (N : List String) (d : List Store) (nx : Nat) : CInv N { disk := d, next := nx } :=
   ⟨fun _ hn => (by cases hn), fun _ => rfl, fun hp => (by cases hp), fun hp => (by cases hp), fun hp => (by cases hp), fun hp => (by cases hp)⟩
+
+theorem inv2_start (N : List String) (d : List Store) (nx : Nat) : Inv2 N { disk := d, next := nx } :=
+  ⟨cinv_start N d nx,
+   ⟨fun _ hn => (by cases hn), fun _ => rfl, rfl, fun hp => (by rcases hp with hp | hp <;> cases hp),
+    fun _ _ hn => (by cases hn), fun _ _ hp => (by cases hp), fun _ _ hn => (by cases hn)⟩⟩
 
 /-- **A transaction that ends without committing leaves no store it created**, whatever the catalogue was, whatever
 `T` did (any `NewBtree`/`OpenBtree`/adds, any number of conflict rounds, a last round failing before or after it
@@ -947,23 +1335,41 @@ logged again, an explicit `Rollback`, a failed `NewBtree`/`OpenBtree`), and howe
 committers interleave with its steps. -/
 theorem abort_leaves_no_created_store (N : List String) (d : List Store) (nx : Nat) (ops : List StoreRepoCommit.Op)
     (hc : ∀ op ∈ ops, Calm N op) :
-    let s := StoreRepoCommit.run false { disk := d, next := nx } ops
+    let s := StoreRepoCommit.run {} { disk := d, next := nx } ops
     s.phase = .failed → ∀ n ∈ created s, has s.disk n = false :=
-  (cinv_run ops (cinv_start N d nx) hc).failed
+  (inv2_run ops (inv2_start N d nx) hc).c.failed
 
 /-- already while the commit is retrying after a conflict round the created stores are gone -/
 theorem conflict_removes_created (N : List String) (d : List Store) (nx : Nat) (ops : List StoreRepoCommit.Op)
     (hc : ∀ op ∈ ops, Calm N op) :
-    let s := StoreRepoCommit.run false { disk := d, next := nx } ops
+    let s := StoreRepoCommit.run {} { disk := d, next := nx } ops
     s.phase = .retry → ∀ n ∈ created s, has s.disk n = false :=
-  (cinv_run ops (cinv_start N d nx) hc).retry
+  (inv2_run ops (inv2_start N d nx) hc).c.retry
 
 /-- if it committed, every store it created exists -/
 theorem commit_keeps_created (N : List String) (d : List Store) (nx : Nat) (ops : List StoreRepoCommit.Op)
     (hc : ∀ op ∈ ops, Calm N op) :
-    let s := StoreRepoCommit.run false { disk := d, next := nx } ops
+    let s := StoreRepoCommit.run {} { disk := d, next := nx } ops
     s.phase = .committed → ∀ n ∈ created s, has s.disk n = true :=
-  (cinv_run ops (cinv_start N d nx) hc).committed
+  (inv2_run ops (inv2_start N d nx) hc).c.committed
+
+/-- **Faults and crashes inside `NewBtree` included**: `NewBtree` of an absent name is the `createStore` record, then
+`StoreRepository.Add` (`Variant.addFirst = false`, the order the proof uses through `DInv.durable`); each of the two
+calls may fail before or after it was performed, the process may die between any two steps (`crash`), and the
+transaction ends by the live rollback (`failed`) or, after a crash, by another process's expired-log recovery
+(`recovered`). Then no store `T` ever added is in the catalogue. -/
+theorem create_fault_crash_leaves_no_store (N : List String) (d : List Store) (nx : Nat) (ops : List StoreRepoCommit.Op)
+    (hc : ∀ op ∈ ops, Calm N op) :
+    let s := StoreRepoCommit.run { addFirst := false } { disk := d, next := nx } ops
+    (s.phase = .failed ∨ s.phase = .recovered) → ∀ n ∈ s.everAdded, has s.disk n = false :=
+  (inv2_run ops (inv2_start N d nx) hc).d.gone
+
+/-- while `T` runs or lies crashed, every store it added that is on disk has its `createStore` record in the log -/
+theorem created_store_has_record (N : List String) (d : List Store) (nx : Nat) (ops : List StoreRepoCommit.Op)
+    (hc : ∀ op ∈ ops, Calm N op) :
+    let s := StoreRepoCommit.run { addFirst := false } { disk := d, next := nx } ops
+    (s.phase = .live ∨ s.phase = .retry ∨ s.phase = .crashed) → ∀ n ∈ s.everAdded, has s.disk n = true → n ∈ s.tlog :=
+  (inv2_run ops (inv2_start N d nx) hc).d.durable
 
 def leakOps : List StoreRepoCommit.Op := [.begin, .open_ "se", .new "sn" ⟨4, true⟩, .add "sn" 10 "a", .otherAdd "se" 5 "x", .conflict, .finish false false]
 
@@ -978,14 +1384,51 @@ theorem leakOps_calm : ∀ op ∈ leakOps, Calm ["sn"] op := by
 /-- the partial rollback that keeps created stores but rewinds the log state: the transaction ends failed and `sn`
 is still in the catalogue -/
 theorem abort_forgetful_counterexample :
-    let s := StoreRepoCommit.run true leakStart leakOps
+    let s := StoreRepoCommit.run { forget := true } leakStart leakOps
     s.phase = .failed ∧ created s = ["sn"] ∧ has s.disk "sn" = true := by
   decide +kernel
 
 /-- the same history on the code's partial rollback: failed, `sn` gone (by the theorem; here evaluated) -/
 theorem abort_witness :
-    let s := StoreRepoCommit.run false leakStart leakOps
+    let s := StoreRepoCommit.run {} leakStart leakOps
     s.phase = .failed ∧ created s = ["sn"] ∧ has s.disk "sn" = false ∧ has s.disk "se" = true := by
+  decide +kernel
+
+/-! the swapped order of `NewBtree`'s two calls (`addFirst`): the store is on disk while nothing records it -/
+
+/-- `Add`, then the `createStore` record fails (before or after it was written): the live rollback knows no created
+B-tree (it is registered after the record), the failed transaction leaves `sn` -/
+theorem create_addFirst_fault_counterexample :
+    let o : Opts := ⟨4, true⟩
+    let s1 := StoreRepoCommit.run { addFirst := true } leakStart [.begin, .newAdd "sn" o .none, .newLog "sn" o .before]
+    let s2 := StoreRepoCommit.run { addFirst := true } leakStart [.begin, .newAdd "sn" o .none, .newLog "sn" o .after]
+    (s1.phase = .failed ∧ s1.everAdded = ["sn"] ∧ has s1.disk "sn" = true) ∧
+    (s2.phase = .failed ∧ s2.everAdded = ["sn"] ∧ has s2.disk "sn" = true) := by
+  decide +kernel
+
+/-- `Add`, then the process dies before the record is written: the recovery finds no record, `sn` stays -/
+theorem create_addFirst_crash_counterexample :
+    let s := StoreRepoCommit.run { addFirst := true } leakStart [.begin, .newAdd "sn" ⟨4, true⟩ .none, .crash, .recover]
+    s.phase = .recovered ∧ s.everAdded = ["sn"] ∧ has s.disk "sn" = true := by
+  decide +kernel
+
+/-- the code's order on the corresponding histories (every crash point and fault of the two calls): nothing stays -/
+theorem create_logFirst_witness :
+    let o : Opts := ⟨4, true⟩
+    let r (ops : List StoreRepoCommit.Op) := StoreRepoCommit.run {} leakStart (.begin :: ops)
+    has (r [.newLog "sn" o .none, .crash, .recover]).disk "sn" = false ∧
+    (let s := r [.newLog "sn" o .none, .newAdd "sn" o .none, .crash, .recover]
+     s.phase = .recovered ∧ s.everAdded = ["sn"] ∧ has s.disk "sn" = false ∧ has s.disk "se" = true) ∧
+    (let s := r [.newLog "sn" o .none, .newAdd "sn" o .none, .add "sn" 1 "a", .crash, .recover]
+     s.phase = .recovered ∧ has s.disk "sn" = false) ∧
+    (let s := r [.newLog "sn" o .none, .newAdd "sn" o .after]
+     s.phase = .failed ∧ s.everAdded = ["sn"] ∧ has s.disk "sn" = false) ∧
+    (let s := r [.newLog "sn" o .none, .newAdd "sn" o .before]
+     s.phase = .failed ∧ has s.disk "sn" = false) ∧
+    (let s := r [.newLog "sn" o .after]
+     s.phase = .failed ∧ has s.disk "sn" = false ∧ s.tlog = []) ∧
+    (let s := r [.newLog "sn" o .none, .newAdd "sn" o .none, .add "sn" 1 "a", .finish true true]
+     s.phase = .committed ∧ has s.disk "sn" = true) := by
   decide +kernel
 
 end Sop.C12.Commit
